@@ -20,7 +20,7 @@ func main() {
 		run.Finish()
 		return
 	}
-	r := hx.NewRng(run.Seed)
+	r := hx.NewRng(run.Seed).Fork() // Fork: seeds n and n+1 would otherwise be the same stream shifted by one draw
 	meshgen.FixedCases(run)
 	meshgen.FixedGens(run)
 	// one third generator cases, two thirds operation histories
